@@ -46,14 +46,16 @@ FloatCat(c) ==
     [] OTHER -> "err"                        \* empty, ws, ovf (ErrRange), nonnum
 \* strconv.ParseUint(s, 10, 64) / strconv.ParseInt(s, 10, 64)
 UintCat(c) ==
-  CASE c \in {"pos", "lead0", "max64", "u64", "one", "two", "huge"} -> "pos"
+  CASE c \in {"pos", "lead0", "max64", "big32", "u64", "one", "two", "huge"} -> "pos"
     [] c = "zero" -> "zero"
     [] OTHER -> "err"                        \* empty, neg, exp, hex, plus, ws, nan, ovf, nonnum, dec
 IntCat(c) ==
-  CASE c \in {"pos", "lead0", "max64", "plus", "one", "two", "huge"} -> "pos"
+  CASE c \in {"pos", "lead0", "max64", "big32", "plus", "one", "two", "huge"} -> "pos"
     [] c = "zero" -> "zero"
     [] c = "neg" -> "neg"
     [] OTHER -> "err"                        \* ... and u64: out of range for int64
+\* strconv.ParseInt(s, 10, 32): the repaired validator bounds the device count
+Int32Cat(c) == IF c \in {"max64", "big32"} THEN "err" ELSE IntCat(c)
 \* what the string DENOTES (the harness's grammar: decimal / exponent / hex-float literals with an
 \* optional sign; nothing else)
 FracDen(c) ==
@@ -64,11 +66,11 @@ FracDen(c) ==
     [] c = "neg" -> "neg"
     [] OTHER -> "bottom"                     \* empty, ws, nan, inf, nonnum
 IntDen(c) ==
-  CASE c \in {"pos", "lead0", "plus", "max64", "u64", "ovf", "one", "two", "huge", "exp", "hex"} -> "posint"
+  CASE c \in {"pos", "lead0", "plus", "max64", "big32", "u64", "ovf", "one", "two", "huge", "exp"} -> "posint"
     [] c = "zero" -> "zero"
     [] c = "neg" -> "neg"
     [] c = "dec" -> "nonint"
-    [] OTHER -> "bottom"                     \* empty, ws, nan, nonnum
+    [] OTHER -> "bottom"                     \* empty, ws, nan, nonnum, hex (a hex literal needs a p exponent)
 
 Present(c) == c # "absent"
 WholeLimit(p) == p.ctr # "none"
@@ -83,7 +85,7 @@ ValidatorFracOk(p) ==
 ValidatorMemOk(p) ==
   ~Present(p.mem) \/ (IF FixUint THEN IntCat(p.mem) = "pos" ELSE UintCat(p.mem) = "pos")
 ValidatorDevOk(p) ==
-  ~Present(p.dev) \/ (IF FixUint THEN IntCat(p.dev) = "pos" ELSE UintCat(p.dev) = "pos")
+  ~Present(p.dev) \/ (IF FixUint THEN Int32Cat(p.dev) = "pos" ELSE UintCat(p.dev) = "pos")
 M_ValidateOk(p) ==
   /\ ~(p.sharing = 0 /\ RequestsFraction(p))
   /\ ~(Present(p.frac) /\ WholeLimit(p))
@@ -99,15 +101,13 @@ SchedMemOk(p) == Present(p.mem) /\ IntCat(p.mem) = "pos"
 M_SchedKind(p) ==
   IF SchedFracOk(p) THEN "fraction" ELSE IF SchedMemOk(p) THEN "memory"
   ELSE IF WholeLimit(p) THEN "whole" ELSE "none"
-\* the scheduler's quantities equal the denoted ones (only read for admitted, well-formed pods)
+\* the scheduler's quantities equal the denoted ones and the request is accounted as a GPU request
+\* (GPUs() > 0, or a memory request); only read for admitted, well-formed pods
 M_SchedExact(p) ==
-  /\ Present(p.frac) => FloatCat(p.frac) \in {"in01", "tiny01"}
+  /\ Present(p.frac) => FloatCat(p.frac) = "in01"            \* tiny01: GPUs() rounds to 0.00 - a CPU-only pod
   /\ Present(p.mem) => IntCat(p.mem) = "pos"
   /\ Present(p.dev) => IntCat(p.dev) = "pos"
-\* the request is accounted as a GPU request (GPUs() > 0 or a memory request)
-M_SchedRequires(p) ==
-  \/ M_SchedKind(p) = "memory" \/ M_SchedKind(p) = "whole"
-  \/ M_SchedKind(p) = "fraction" /\ FloatCat(p.frac) # "tiny01"
+  /\ ~(Present(p.frac) /\ p.dev = "max64")                   \* round(portion * 100) * count overflows int64
 
 \* ---- denotation
 FracWF(p) == ~Present(p.frac) \/ FracDen(p.frac) = "in01"
@@ -122,7 +122,7 @@ M_Dwf(p) == FracWF(p) /\ MemWF(p) /\ DevWF(p) /\ CombosWF(p)
 DKind(p) == IF Present(p.frac) THEN "fraction" ELSE IF Present(p.mem) THEN "memory"
             ELSE IF WholeLimit(p) THEN "whole" ELSE "none"
 \* a request the cluster of the binder stage can hold at all (8 GPUs per node)
-M_Fits(p) == (Present(p.dev) => p.dev \in {"one", "two"}) /\ (Present(p.mem) => p.mem \in {"pos", "lead0"})
+M_Fits(p) == (Present(p.dev) => p.dev \in {"one", "two", "plus"}) /\ (Present(p.mem) => p.mem \in {"pos", "lead0", "plus"})
 \* the binder materialises a positive portion (two decimals) for everything but sub-centi fractions
 M_BindExact(p) == Present(p.frac) => FloatCat(p.frac) # "tiny01"
 
@@ -153,7 +153,7 @@ VARIABLES pod, pc, obs
 vars == <<pod, pc, obs>>
 
 NoObs == [admitted |-> FALSE, mutated |-> FALSE, idem |-> TRUE, d_wf |-> FALSE, d_kind |-> "none",
-          s_kind |-> "none", s_exact |-> FALSE, s_requires |-> FALSE, s_sharing |-> FALSE,
+          s_kind |-> "none", s_exact |-> FALSE, s_sharing |-> FALSE,
           fits |-> FALSE, b_reached |-> FALSE, b_ok |-> FALSE, b_exact |-> FALSE, sharing |-> TRUE]
 
 Init == /\ pod \in Pods /\ pc = "new"
@@ -174,7 +174,6 @@ Mutate2 ==  /\ pc = "validated"
 \* the scheduler reads every pod that exists, admitted or not (webhooks can be off or bypassed)
 Schedule == /\ pc = "stored"
             /\ obs' = [obs EXCEPT !.s_kind = M_SchedKind(pod), !.s_exact = M_SchedExact(pod),
-                                  !.s_requires = M_SchedRequires(pod),
                                   !.s_sharing = (M_SchedKind(pod) \in {"fraction", "memory"})]
             /\ pc' = "scheduled"
             /\ UNCHANGED pod
@@ -194,8 +193,7 @@ Done == pc = "done"
 C19_AdmittedIsFinitePositive == (Done /\ obs.admitted) => obs.d_wf
 (* ... which the scheduler interprets as exactly that request *)
 C19_SchedulerExact == (Done /\ obs.admitted /\ obs.d_wf) =>
-                         /\ obs.s_kind = obs.d_kind /\ obs.s_exact
-                         /\ (obs.d_kind # "none" => obs.s_requires)
+                         obs.s_kind = obs.d_kind /\ obs.s_exact
 (* ... and which the binder validates and materialises identically (given the scheduler agreed and the
    request fits the cluster at all) *)
 C19_BinderAgrees == (Done /\ obs.admitted /\ obs.d_wf /\ obs.s_kind = obs.d_kind /\ obs.s_exact /\ obs.fits) =>
